@@ -16,7 +16,8 @@ from common import CORPUS_DIR, InfraError, call, frac, rat
 
 RULE = ("obstacles of every role (static; dynamic with trajectory / set-based / no prediction; phantom; environment) x shapes "
         "(rectangle, circle, polygon, shape group; centred and off-centre) x every state class with a position (KS, KST, ST, STD, MB, "
-        "ExtendedPM, Initial, PM and Custom point-mass with vx/vy in all quadrants, Custom with extra attributes) x every optional "
+        "ExtendedPM, Initial, PM and Custom point-mass with vx/vy in all quadrants and of every magnitude: zero, ordinary, slow "
+        "1e-2..1e-300, subnormal, 1e20..1e200, one slow component; Custom with extra attributes) x every optional "
         f"constructor argument (harness/c04_dims.py lists all {c04_dims.size()} parameters / setters / operations and is checked against the real "
         "signatures on every run) x number classes (float, int, float32, numpy scalars, 1e5 magnitudes) queried at every integer step "
         "from 3 before the initial step to 3 after the horizon end, through the obstacle and through the prediction / trajectory; "
@@ -60,7 +61,8 @@ REQUIRED_BUCKETS = ["role/static", "role/dynamic-traj", "role/dynamic-set", "rol
                     "dim/history-arg", "dim/kwargs", "dim/num-int", "dim/num-f32", "dim/num-np64", "dim/num-big", "dim/init-minimal",
                     "dim/custom-extra", "dim/traj-starts-at-init", "dim/traj-starts-before-init", "dim/pred-shape-copy",
                     "dim/pred-shape-other", "dim/lanelet-assignment", "dim/set-empty", "dim/set-nested", "dim/set-duplicate-object",
-                    "dim/set-t0-inconsistent", "dim/numpy-step", "entry/prediction.occupancy_at_time_step",
+                    "dim/set-t0-inconsistent", "dim/numpy-step", "dim/pm-speed-zero", "dim/pm-speed-slow", "dim/pm-speed-subnormal",
+                    "dim/pm-speed-fast", "dim/pm-speed-mixed", "entry/prediction.occupancy_at_time_step",
                     "entry/trajectory.state_at_time_step",
                     "hop/set_trajectory", "hop/reassign", "hop/set_pred_shape", "hop/set_prediction", "hop/update_prediction",
                     "hop/set_initial", "hop/set_initial-inplace", "hop/update_initial", "hop/update_initial_fail", "hop/occ_set",
@@ -93,12 +95,66 @@ def gen_pose(r, pm=False):
              "ori": r.choice([0.0, math.pi / 2, -1.0, 3.0, r.uniform(-6.2, 6.2)])}
     p["num"] = num
     if pm:
-        v = r.choice([(3.0, 4.0), (-3.0, 4.0), (-1.0, -1.0), (2.0, -0.5), (0.0, 1.0), (-2.0, 0.0), (0.0, 0.0), (0.0, -3.0),
-                      (r.uniform(-5, 5), r.uniform(-5, 5))])
-        if num in ("int", "f32"):
-            v = (float(round(v[0])), float(round(v[1])))
+        v = gen_pm_velocity(r, num)
         p = {"pos": p["pos"], "vx": v[0], "vy": v[1], "num": num}
     return p
+
+
+PM_DIRECTIONS = [(3.0, 4.0), (-3.0, 4.0), (-1.0, -1.0), (2.0, -0.5), (0.0, 1.0), (-2.0, 0.0), (0.0, -3.0), (1.0, 0.0), (-4.0, -0.25)]
+SUBNORMAL = [5e-324, 1.5e-323, 1e-310, 2e-308]          # below the smallest normal double (2.2250738585072014e-308)
+
+
+def gen_pm_velocity(r, num):
+    """Velocity vector of a point-mass state. Its heading atan2(vy, vx) is a matter of the DIRECTION alone, so the MAGNITUDE is a
+    dimension of its own: ordinary speeds, exactly zero, slow (log-uniform from 1e-2 down to 1e-300: creeping / numerically almost
+    standing, in every direction), subnormal components, very fast, and one slow component beside an ordinary one."""
+    if num == "int":
+        v = r.choice(PM_DIRECTIONS + [(0.0, 0.0), (r.uniform(-5, 5), r.uniform(-5, 5))])
+        return float(round(v[0])), float(round(v[1]))
+    x = r.random()
+    if x < 0.45:
+        v = r.choice(PM_DIRECTIONS + [(0.0, 0.0), (r.uniform(-5, 5), r.uniform(-5, 5))])
+        return (float(round(v[0])), float(round(v[1]))) if num == "f32" else v
+    d = r.choice(PM_DIRECTIONS + [(r.uniform(-5, 5), r.uniform(-5, 5))])
+    if num == "f32":            # exactly representable in float32: small integers times a power of two
+        d = (float(round(d[0])), float(round(d[1])))
+        d = d if d != (0.0, 0.0) else (0.0, -1.0)
+        slow = 2.0 ** -r.choice([r.randint(8, 20), r.randint(20, 60), r.randint(60, 120)])
+        if x < 0.80:
+            return d[0] * slow, d[1] * slow
+        if x < 0.88:
+            return d[0] * 2.0 ** r.randint(64, 100), d[1] * 2.0 ** r.randint(64, 100)
+        return r.choice([(d[0] or 1.0, slow * r.choice([1.0, -1.0])), (slow * r.choice([1.0, -1.0]), d[1] or -1.0)])
+    if x < 0.75:                # slow: 60% just below everyday speeds (1e-6 .. 1e-2), the rest far below
+        e = r.choice([r.uniform(-6, -2)] * 3 + [r.uniform(-16, -6), r.uniform(-300, -16)])
+        k = 10.0 ** e / math.hypot(*d) if d != (0.0, 0.0) else 0.0
+        return d[0] * k, d[1] * k
+    if x < 0.80:                # subnormal components (the smallest non-zero doubles), all sign / zero combinations but (0, 0)
+        while True:
+            v = (r.choice([0.0, 1.0, -1.0]) * r.choice(SUBNORMAL), r.choice([0.0, 1.0, -1.0]) * r.choice(SUBNORMAL))
+            if v != (0.0, 0.0):
+                return v
+    if x < 0.88:                # very fast (squares of the components overflow)
+        k = 10.0 ** r.uniform(20, 200)
+        return d[0] * k, d[1] * k
+    k = 10.0 ** r.choice([r.uniform(-6, -2), r.uniform(-16, -6), r.uniform(-300, -16)])     # one slow component beside an ordinary one
+    return r.choice([(d[0] or 1.0, k * r.choice([1.0, -1.0])), (k * r.choice([1.0, -1.0]), d[1] or -1.0)])
+
+
+def pm_speed_class(vx, vy):
+    """Magnitude class of a point-mass velocity vector (bucket dim/pm-speed-*), from the VALUES (also of stored corpus cases)."""
+    ax, ay = abs(vx), abs(vy)
+    if ax == 0.0 and ay == 0.0:
+        return "zero"
+    if max(ax, ay) < 2.2250738585072014e-308:
+        return "subnormal"
+    if max(ax, ay) < 1e-2:
+        return "slow"
+    if max(ax, ay) > 1e19:
+        return "fast"
+    if 0.0 < min(ax, ay) < 1e-2:
+        return "mixed"
+    return "ordinary"
 
 
 def gen_obst_shape(r):
@@ -421,6 +477,8 @@ def tag_dims(ctx, o):
         ctx.tag("state/" + tr["cls"])
         for p in tr["states"]:
             ctx.tag("dim/num-" + p.get("num", "float"))
+            if tr["cls"] in PM_LIKE:
+                ctx.tag("dim/pm-speed-" + pm_speed_class(p["vx"], p["vy"]))
         if tr.get("extra"):
             ctx.tag("dim/custom-extra")
         if tr["t0"] == o["t_init"]:
